@@ -468,6 +468,41 @@ func (fr *frame) jump(to *ssa.BasicBlock) {
 	for i := 0; i < n; i++ {
 		fr.set(to.Instrs[i].(*ssa.Phi), vals[i])
 	}
+	if pr := fr.ex.env.probe; pr != nil && fr.fn.Name() == pr.fn {
+		fr.probeLoop(pr, to, n)
+	}
+}
+
+// probeLoop hands the current values of the probed loop-carried variables to the harness closure.
+func (fr *frame) probeLoop(pr *loopProbe, to *ssa.BasicBlock, n int) {
+	phis, seen := pr.blocks[to]
+	if !seen {
+		for _, v := range pr.vars {
+			var found *ssa.Phi
+			for i := 0; i < n; i++ {
+				if ph := to.Instrs[i].(*ssa.Phi); ph.Comment == v {
+					found = ph
+				}
+			}
+			if found == nil {
+				phis = nil
+				break
+			}
+			phis = append(phis, found)
+		}
+		pr.blocks[to] = phis
+	}
+	if phis == nil {
+		return
+	}
+	cells := make([]Value, len(phis))
+	for i, ph := range phis {
+		cells[i] = fr.get(ph)
+	}
+	ex := fr.ex
+	ex.env.probe = nil // not re-entrant
+	ex.call(pr.f, []Value{Slice{b: &Backing{cells: cells}, off: 0, len: len(cells), cap: len(cells)}}, nil)
+	ex.env.probe = pr
 }
 
 func (ex *Exec) panicString(v Value) string {
